@@ -321,31 +321,10 @@ def kdf_gate(check, repo):
                 return ABytes(None)
             return m
 
-        def m_compile(i, a, kw, st, node):
-            return i.new_obj(st, label="regex", attrs={"pattern": a[0]})
-
-        def m_match(kind):
-            def m(i, base, a, kw, st, node):
-                pat = st.heap.get(getattr(base, "ident", None), {}).get("pattern") if hasattr(base, "ident") else None
-                if not isinstance(pat, str) or not a or not isinstance(a[0], str):
-                    return UNK
-                r = getattr(_re, kind)(pat, a[0])
-                if r is None:
-                    return None
-                return i.new_obj(st, label="match", attrs={"groups": (r.group(0),) + r.groups()})
-            return m
-
-        def m_group(i, base, a, kw, st, node):
-            g = st.heap.get(getattr(base, "ident", None), {}).get("groups") if hasattr(base, "ident") else None
-            if g is None or not a or not isinstance(a[0], int) or a[0] >= len(g):
-                return UNK
-            return g[a[0]]
         models = dict((k, rec(k)) for k in KDFS)
-        models["re.compile"] = m_compile
         for k in ("DerSequence", "DerInteger", "DerObject", "BytesIO_EOF", "DerOctetString", "DerObjectId"):
             models["Crypto.Util.asn1." + k] = False
-        it = Interp(repo, max_depth=14, budget=4000000, extra_models=models,
-                    method_models={"match": m_match("match"), "search": m_match("search"), "group": m_group})
+        it = Interp(repo, max_depth=14, budget=4000000, extra_models=models)
         res = it.run(mod, fn, dict(seeds), bind_defaults=True)
         classes = set(res.raise_classes())
         bad = [c for c in classes if "ValueError" not in it.exc_mro(c, mod)]
